@@ -67,6 +67,7 @@ MCNewReader(r, s, c) ==
   /\ c => s >= 0        \* a committed reader is only ever started at a real offset
   /\ DoNewReader(r, s, c) /\ Step([a |-> "NewReader", r |-> r, s |-> s, c |-> c]) /\ UNCHANGED nRecs
 MCDrain(r) == UseReaders /\ DoDrain(r) /\ Step([a |-> "Drain", r |-> r]) /\ UNCHANGED nRecs
+MCRead(r, k) == UseReaders /\ DoRead(r, k) /\ Step([a |-> "Read", r |-> r, k |-> k]) /\ UNCHANGED nRecs
 \* Tail: from now on the driver reads r from its own goroutine with a live context, so the
 \* reader really blocks at the end of the log / at the HW and is woken by later steps; what it
 \* delivers after each later step is recorded as a Drain.  For the model a Tail is a Drain.
@@ -82,6 +83,7 @@ MCNext ==
   \/ MCReopen
   \/ \E r \in Readers, s \in -1..(Newest + 2), c \in BOOLEAN : MCNewReader(r, s, c)
   \/ \E r \in Readers : MCDrain(r) \/ MCTail(r)
+  \/ \E r \in Readers, k \in 1..2 : MCRead(r, k)
 
 MCSpec == MCInit /\ [][MCNext]_mcvars
 
@@ -93,6 +95,7 @@ StepOK ==
     [] a.a = "Truncate" -> P_Truncate(a.o)
     [] a.a = "SetHW" -> P_SetHW(a.h)
     [] a.a = "Drain" -> P_Drain(a.r)
+    [] a.a = "Read" -> P_Read(a.r, a.k)
     [] OTHER -> P_Same
 StepsOK == [][StepOK]_mcvars
 
